@@ -266,11 +266,9 @@ def emitFProg (p : FProg) : Except AsmError (List Insn) :=
 /-- the program-level classes of `Gen` (C01) a compiled statement is in -/
 def CSt.classes : CSt → List String
   | .reg no long e =>
-    ([("narrow-reg-in-64", narrowIn64 e long true (.reg no)), ("unary-32-in-64", neg32in64 e long),
-      ("unary-in-place", unaryInPlace e true)].filter (·.2)).map (·.1)
+    ([("narrow-reg-in-64", narrowIn64 e long true (.reg no))].filter (·.2)).map (·.1)
   | .mem fmt _ _ e =>
-    ([("narrow-reg-in-64", narrowIn64 e fmt.isLong false .any), ("unary-32-in-64", neg32in64 e fmt.isLong),
-      ("unary-in-place", unaryInPlace e false)].filter (·.2)).map (·.1)
+    ([("narrow-reg-in-64", narrowIn64 e fmt.isLong false .any)].filter (·.2)).map (·.1)
 
 /-- *fixed-to-short*: a fixed value stored into a 32-bit (or narrower) destination is divided by `FIXED_BASE` in 32
 bits (inside the property's fit precondition only if the scaled value fits 32 bits) -/
